@@ -221,13 +221,13 @@ func C09(c *Ctx) {
 			} else if len(entries[gi]) > 0 {
 				v = append(v, "-alternate-entrypoints", strings.Join(entries[gi], ","))
 			}
-			if gi < nStrata && len(v) == 1 {
-				// the fixed shapes also meet -optimize-basic-latin (tables computed from optimized classes)
-				return [][]string{{}, v, {"-optimize-grammar", "-optimize-basic-latin"}}
-			}
-			if gi < nStrata && len(v) > 1 {
-				// the fixed shapes also run without any protected entrypoint (a protected rule is never removed)
-				return [][]string{{}, v, {"-optimize-grammar"}}
+			if gi < nStrata {
+				// the fixed shapes also run without any protected entrypoint (a protected rule is never
+				// removed) and together with -optimize-basic-latin (tables computed from optimized classes)
+				if len(v) == 1 {
+					return [][]string{{}, v, {"-optimize-grammar", "-optimize-basic-latin"}}
+				}
+				return [][]string{{}, v, {"-optimize-grammar"}, {"-optimize-grammar", "-optimize-basic-latin"}}
 			}
 			return [][]string{{}, v}
 		},
@@ -309,8 +309,8 @@ func c09Strata() []*gast.Grammar {
 		mk(r("S", gast.Star(gast.C(gast.L("="), gast.L("<="), gast.L("<"), gast.L("a"), gast.L(">>"), gast.L(">"))))),
 		mk(r("S", gast.Star(gast.S(gast.Plus(gast.Cl(gast.Chars("0123456789"))), gast.C(gast.Li("Ki"), gast.L("k"), gast.Li("Mi"), gast.L("m"), gast.L("g"), gast.Li("Gi")), gast.Opt(gast.L(",")))))),
 		// a merged class whose display text looks like another, genuine class of the same grammar
-		mk(r("S", gast.Star(gast.C(gast.Ref("Anchor"), gast.Ref("Text")))), r("Anchor", gast.C(gast.L("^"), gast.L("$"))), r("Text", gast.Plus(gast.Cl(&gast.ClassSpec{Chars: []rune("$"), Inverted: true})))),
-		mk(r("S", gast.Star(gast.C(gast.Ref("Dash"), gast.Ref("Low"), gast.Dot()))), r("Dash", gast.C(gast.L("a"), gast.L("-"), gast.L("z"))), r("Low", gast.S(gast.L("!"), gast.Cl(&gast.ClassSpec{Ranges: [][2]rune{{'a', 'z'}}})))),
+		mk(r("S", gast.Star(gast.C(gast.Ref("Anchor"), gast.Ref("Text")))), r("Anchor", act(gast.C(gast.L("^"), gast.L("$")), 1)), r("Text", act(gast.Plus(gast.Cl(&gast.ClassSpec{Chars: []rune("$"), Inverted: true})), 2))),
+		mk(r("S", gast.Star(gast.C(gast.Ref("Dash"), gast.Ref("Low"), gast.Dot()))), r("Dash", act(gast.C(gast.L("a"), gast.L("-"), gast.L("z")), 1)), r("Low", act(gast.S(gast.L("!"), gast.Cl(&gast.ClassSpec{Ranges: [][2]rune{{'a', 'z'}}})), 2))),
 		// a caseless one-rune literal next to a literal / class with the other i flag
 		mk(r("S", gast.Plus(gast.C(gast.L("_"), gast.Li("x"), gast.Cl(&gast.ClassSpec{Ranges: [][2]rune{{'0', '9'}}})))), r("T", gast.Plus(gast.C(gast.Li("1"), gast.L("a"), gast.Li("-"), gast.Cl(gast.Chars("k")))))),
 		// one-byte literals that are not valid UTF-8 (they stand for U+FFFD) side by side
